@@ -49,10 +49,30 @@ class Model:
                         cands.append(bi)
         if not cands:
             return None
-        top = [c for c in cands if all(body.dominates(c, d) for d in cands)]
-        if not top:
+        # drop elaboration adds "drop ladders" that also switch on the discriminant; the real
+        # match is the switch with the most arms that contain a call (ladders only drop)
+        def real_arms(bi):
+            t = body.term(bi)
+            n = 0
+            for tb in {tb for _, tb in t['targets']}:
+                st, seen = [tb], set()
+                found = False
+                while st and not found and len(seen) < 12:
+                    x = st.pop()
+                    if x in seen:
+                        continue
+                    seen.add(x)
+                    tt = body.term(x)
+                    if tt['k'] == 'call' or any(s['k'] == 'assign' and s['r']['k'] == 'agg' for s in body.blocks[x]['s']):
+                        found = True
+                    elif tt['k'] in ('goto', 'drop', 'switch'):
+                        st.extend(body.succ(x))
+                n += found
+            return n
+        scored = sorted(((real_arms(c), -c, c) for c in cands), reverse=True)
+        if scored[0][0] < 3:
             return None
-        bi = top[0]
+        bi = scored[0][2]
         t = body.term(bi)
         tm = {}
         for v, tb in t['targets']:
